@@ -354,8 +354,31 @@ def cases_for(rng, n, ctx):
     return cases
 
 
+WHAT_JACK = 'jack_matmul / einsum decide real / complex / plain by the first entry of an operand: a complex times a real matrix of observables gives malformed observables (or raises in the other order)'
+
+
+def jack_mixed_probe(ctx, rng):
+    """a recorded finding, probed by the driver itself: the jackknife product of a complex and a real matrix of observables either agrees
+    with the exact product, or shows the listed deviation (an observable whose central value is not a number / an exception)"""
+    x = [pe.Obs([v + 0.05 * rng.normal(size=40)], ['J|r1']) for v in (1.1, 0.4, 0.7)]
+    C = np.array([[pe.CObs(x[0], x[1])]], dtype=object)
+    R = np.array([[x[2]]], dtype=object)
+    for cid, f in (('jack-cobs-times-obs', lambda: pe.linalg.jack_matmul(C, R)), ('jack-obs-times-cobs', lambda: pe.linalg.jack_matmul(R, C))):
+        try:
+            z = f()[0, 0]
+            re_ = z.real
+            ok = isinstance(re_, pe.Obs) and isinstance(re_.value, (float, np.floating)) and abs(float(re_.value) - float((x[0] * x[2]).value)) < 1e-2
+        except Exception:  # noqa: BLE001
+            ok = False
+        if not ok:
+            ctx.known.append((cid, WHAT_JACK))
+    ctx.cases += 2
+
+
 def run(ctx):
     rng = np.random.default_rng(ctx.seed)
     ctx.model('MC_Mat', timeout=900)
     cases = cases_for(rng, 140 if ctx.quick else 1400, ctx)
     ctx.validate('MatTrace', cases)
+    if ctx.only is None:
+        jack_mixed_probe(ctx, rng)
